@@ -24,15 +24,28 @@ SPEC = {
     "rule": "case = generated history of 25 (quick) / 35 (thorough) operations set(f,text) / rm(f) / burst of 1-3 "
             "queries (analyze, diagnostics, file_symbols, type_of, expr_id_at_offset) over 1-5 files of a small "
             "cross-referencing project (functions+callers, TYPE/FB/PROGRAM, VAR_GLOBAL/VAR_EXTERNAL with tasks, "
-            "namespaces+USING, interfaces/EXTENDS, duplicate global names, CONSTANT EXPRESSIONS with boundary "
+            "namespaces+USING, interfaces/EXTENDS, duplicate global names, INHERITANCE ACROSS FILES (bases, derived "
+            "FB/CLASS, interfaces, users and second-level heirs in five files; the variants of the derived file and "
+            "of the interface file differ only in the name after EXTENDS / IMPLEMENTS, same length; users read members "
+            "that exist in one base only), RECURSIVE DATA TYPES ACROSS FILES (a structure/union reaching itself through "
+            "REF_TO / POINTER TO / ARRAY OF / an alias, two structures pointing at each other in one file and split over "
+            "two files, function blocks referring to themselves and to each other, users in other files), "
+            "CONSTANT EXPRESSIONS with boundary "
             "arithmetic (operands 0, +-1, +-2, 63, 64, MIN/MAX of i8..i64 built from literals or named constants; "
             "operators + - * / MOD ** unary +-; in VAR CONSTANT initialisers, array bounds, subrange bounds, enum "
             "values, STRING lengths, CASE labels, array indices, subrange assignments, typed literals, across files), "
             "the filling_line/plant_demo examples, token soup), texts drawn from per-role variants, generic mutations (truncate, drop/duplicate a line, "
-            "INT->DINT, stray token), foreign roles, identical re-sets, empty text; file ids in random relative "
-            "order incl. u32::MAX; 2 of 5 histories are built from MOTIFS (add or re-add a file then, before any "
+            "INT->DINT, stray token), EDITS THAT MOVE NOTHING (a name replaced by another name of the same length taken "
+            "from the texts of the case or an elementary type, one occurrence or all; a variant of the same shape, i.e. "
+            "equal line lengths: no range, id, scope or type changes, only what is stored by name), foreign roles, "
+            "identical re-sets, empty text; file ids in random relative "
+            "order incl. u32::MAX; the Database/Project cases run in a WORKER PROCESS that announces every operation "
+            "before running it: an operation that kills the process (stack overflow, failed allocation) or hangs it "
+            "(180 s) is recorded by the supervising process as a failed judgement of that operation and the run goes on "
+            "with the next case; 2 of 5 histories are built from MOTIFS (add or re-add a file then, before any "
             "project-level query, edit or remove another file; remove and re-add the lowest-id file; a project-level "
-            "sweep of diagnostics/analyze/type_of after the operations, also on the still empty project); every history "
+            "sweep of diagnostics/analyze/type_of after the operations, also on the still empty project; a name-only edit "
+            "of a file between two project-level sweeps); every history "
             "ends with a sweep of all kinds over all files and an unknown file "
             "in random order. Every 5th case is a Project-layer history (keys instead of ids; also the three project "
             "calls of rename_document, incl. old = new). After them 40 (quick) / 600 (thorough) LSP SESSIONS with the real "
@@ -41,8 +54,13 @@ SPEC = {
             "file: %2E, a symlinked directory, both; open and closed documents), didCreateFiles / didDeleteFiles + "
             "didChangeWatchedFiles, external edits; judged at the end and once in the middle against a FRESH server on "
             "the same directory that got one didOpen per open buffer (pull diagnostics, documentSymbol, 8 hovers per "
-            "file); the first two sessions are fixed (aliasing-rename regression case, witness of "
-            "C13-lsp-symlink-stale-key). non-trivial = a query "
+            "file); 1 session in 4 runs UNDER A MEMORY BUDGET (trust-lsp.toml [indexing] memory_budget_mb = 1|2, "
+            "evict_to_percent 1..100; the library and 1-4 other files padded with a 300-900 kB comment so that closed "
+            "documents are evicted, least recently used first): there the analysis is judged against a fresh server "
+            "WITHOUT the budget on exactly the files the document layer holds (hook request per file; evicted files are "
+            "moved out of the directory while the fresh server lives), so an evicted or deleted file must contribute "
+            "nothing; the first three sessions are fixed (aliasing-rename regression case, witness of "
+            "C13-lsp-symlink-stale-key, budget regression case: library evicted, then deleted). non-trivial = a query "
             "was answered before a later edit AND a file was removed at some point AND a file remains at the end (db stream), or a key "
             "was removed and re-added (proj stream); distinct = by hash of the case's operation lines",
     "trusted_base": [
@@ -56,11 +74,18 @@ SPEC = {
         "query entry points}, sync_project_inputs, project_inputs().expect, SourceRegistry::{ensure_file_id, remove}, "
         "Project::{set_source_text, remove_source}; tied by this run's comparison of the verif_views() hook after "
         "every operation",
+        "hand-written model DocLayer of crates/trust-lsp/src/state/documents.rs {open_document, index_document_impl, "
+        "update_document, close_document, remove_document, victim loop of enforce_memory_budget} over one URI "
+        "spelling per file and a client that sends didChange only for open documents; NOT tied by a hook comparison "
+        "(the server exposes the documents map through trust-lsp/verifDocumentText but not the project's sources): "
+        "its statement is what the fresh-server oracle tests on the sessions under a memory budget",
         "FxHashMap modelled as an association list (lawful finite map); its unspecified iteration order is "
         "irrelevant because every order-sensitive use in the code sorts by file id and the one unsorted loop "
         "(prepare_salsa_project) is proved to be a no-op on every reachable state",
-        "Rust harness vharness c13: generator, canonical dump of answers, PartialEq of the real answer types, "
-        "catch_unwind; the final texts of a history are tracked by the harness, not read back from the database",
+        "Rust harness vharness c13: generator, canonical dump of answers (incl. the EXTENDS / IMPLEMENTS names of "
+        "every symbol), PartialEq of the real answer types AND equality of the dumps (a broken Eq of an answer type "
+        "cannot blind the oracle), catch_unwind, supervising process for aborts and hangs; the final texts of a "
+        "history are tracked by the harness, not read back from the database",
         "trust-lsp binary built from the same tree with the hook feature; stdio JSON-RPC client copied from harness/src/c14.rs; "
         "the hook request trust-lsp/verifDocumentText is used only as a barrier after notifications",
         "the fresh database of the oracle lives in the harness process: state outside the Database object would be "
@@ -87,7 +112,12 @@ MANIFEST = {
                   "the same answers for every semantics of the queries), c13_no_panic (the expect in project_inputs and "
                   "dangling SourceInputs are unreachable), c13_repeat (a repeated query changes nothing and returns the "
                   "same result, in every state), c13_queries_transparent (deleting a query from a history changes no "
-                  "later answer), c13_lazy_sync_only_when_empty. Each run executes the model and the real Database on "
+                  "later answer), c13_lazy_sync_only_when_empty; for the LSP document layer's own bookkeeping (documents "
+                  "map next to the project sources, incl. evictions under [indexing] memory_budget_mb with ANY choice of "
+                  "closed victims): c13_doclayer_in_step (the project holds a text for a key exactly when a document is "
+                  "held, and it is the document's content), c13_doclayer_deleted_is_gone (after the delete event the file "
+                  "is out of the analysis, whatever was evicted before), c13_doclayer_evict_keeps_open. "
+                  "Each run executes the model and the real Database on "
                   "the same generated histories and compares the hook views after every operation, and judges every "
                   "real answer (diagnostics, analysis, symbol table, expression type, expression id) against a "
                   "brand-new Database loaded with the final texts (in random order), against a repeated query, and for "
@@ -111,12 +141,22 @@ MANIFEST = {
                   "Third layer (crates/trust-lsp/src/state/documents.rs, an anchor file): TESTED only, by the fresh-server "
                   "oracle over stdio; its rename is modelled at the Project layer (projRename = remove old, remove new, set "
                   "new, on canonical keys) and proved: c13_project_view_rename (view theorem over set/remove/query/rename), "
-                  "c13_alias_rename_keeps_text. Not modelled there: the documents map, is_open, ensure_document, the index "
+                  "c13_alias_rename_keeps_text; the documents map with is_open and the budget evictions is modelled separately "
+                  "(DocLayer, one URI spelling per file: proved in step with the project sources, not tied by a hook). "
+                  "Not modelled there: ensure_document, the index "
                   "cache, URI canonicalisation - where the open known finding C13-lsp-symlink-stale-key lives (a file known "
                   "through a symbolic link keeps its symbols in the project after it is deleted or renamed away: the key is "
                   "recomputed from a path that can no longer be canonicalised); generated histories rename such a file back "
                   "to its canonical URI first, the witness is replayed on every run. Closing a dirty buffer and deleting an "
                   "open file are not generated (C14 covers the document text); every disk change is reported by the watcher. "
+                  "Memory budget (enforce_memory_budget): the statement proved for DocLayer and TESTED on the server is 'the analysis is that of a "
+                  "brand-new server on exactly the documents the layer holds', i.e. documents map and project sources stay "
+                  "in step through evictions, reloads and deletions (which files are evicted is LRU policy and not judged). "
+                  "Round-3 additions at the Database layer (all TESTED by the fresh-database oracle, not modelled): salsa's "
+                  "backdating of re-computed symbol tables after edits that move no range (same-length name swaps, EXTENDS / "
+                  "IMPLEMENTS targets across files), termination of the cross-file type import on recursive and mutually "
+                  "recursive types (a process abort is observed by the supervising process and is a violation of 'no query "
+                  "panics'). "
                   "Proved for the Project layer: c13_project_view (texts by key are right), c13_project_db_fresh "
                   "(answers equal a fresh Database given the same ids).",
 }
@@ -206,7 +246,10 @@ def _lsp_history(c, upto):
         if l.startswith("#l "):
             w = l.split()
             if w[1] in ("disk", "change", "create", "extedit") and len(w) > 3:
-                out.append(f"{w[1]} {w[2]} {_decode(w[3], 300)!r}")
+                pad = f" + {w[4][4:]} bytes of padding comment" if len(w) > 4 and w[4].startswith("pad=") else ""
+                out.append(f"{w[1]} {w[2]} {_decode(w[3], 300)!r}{pad}")
+            elif w[1] == "config" and len(w) > 2:
+                out.append(f"trust-lsp.toml {_decode(w[2], 300)!r}")
             else:
                 out.append(l[3:])
     return out
@@ -354,7 +397,9 @@ def extra(ctx):
                         if "witness" in c.tags:
                             known_panics[sig][1] = True
                         continue
-                which = ("panic" if f.get("panic") != "0" else
+                which = ("the operation killed the analysis process (abort / stack overflow / hang)"
+                         if f.get("panic") != "0" and detail.get("panic", "").startswith("process died") else
+                         "panic" if f.get("panic") != "0" else
                          "answer differs from a fresh database" if f.get("fresh") != "1" else
                          "repeated query returned a different answer")
                 fails.append({"case": c.n, "seed": ctx["seed"], "tier": ctx["tier"], "layer": "Database",
@@ -370,11 +415,14 @@ def extra(ctx):
                     continue
                 lsp_failed_cases.add(c.n)
                 w = l.split()
-                what = ("the server stayed silent twice (transport)" if "transport" in w else
+                what = ("the server does not hold an open buffer" if "held" in w else
+                        "the server stayed silent twice (transport)" if "transport" in w else
                         f"{w[4] if len(w) > 4 else '?'} request for {w[2] if len(w) > 2 else '?'} got no answer within the "
                         "timeout (a handler that panicked leaves the server silent)" if "no-answer" in w else
                         f"{w[4] if len(w) > 4 else '?'} of {w[2] if len(w) > 2 else '?'} differs from a FRESH server "
-                        "started on the same on-disk + open state")
+                        "started on the same on-disk + open state"
+                        + (" (session under a memory budget: fresh server without the budget on exactly the files the "
+                           "document layer holds)" if any(x.startswith("#l config ") for x in c.lines) else ""))
                 fails.append({"case": c.n, "seed": ctx["seed"], "tier": ctx["tier"], "layer": "LSP documents",
                               "what": what, "query": l[3:], "history": _lsp_history(c, i),
                               "answers": _lsp_details(c.lines[i + 1: i + 3])})
@@ -396,7 +444,9 @@ def extra(ctx):
                             continue
                     proj["differs_from_fresh_same_ids"] += 1
                     fails.append({"case": c.n, "seed": ctx["seed"], "tier": ctx["tier"], "layer": "Project",
-                                  "what": "panic / repeat / answer differs from a fresh project with the same id order",
+                                  "what": ("the operation killed the analysis process (abort / stack overflow / hang)"
+                                           if detail.get("panic", "").startswith("process died") else
+                                           "panic / repeat / answer differs from a fresh project with the same id order"),
                                   "query": l[3:], "history": _history(c, i), "answers": detail})
                 elif bad_key:
                     proj["differs_from_fresh_key_order"] += 1
